@@ -69,6 +69,19 @@ func (d *sImpl) dump() string {
 		vs = append(vs, strconv.Itoa(x))
 		n++
 	}
+	// iter.go: an early break must stop the iterator after exactly the yielded prefix
+	if k := len(vs) / 2; k > 0 {
+		var pre []string
+		for x := range d.l.All() {
+			pre = append(pre, strconv.Itoa(x))
+			if len(pre) == k {
+				break
+			}
+		}
+		if strings.Join(pre, " ") != strings.Join(vs[:k], " ") {
+			vs = append(vs, "all-break!")
+		}
+	}
 	return fmt.Sprintf("%d h=%s t=%s n[%s] v[%s]", d.l.Len(), d.show(d.l.Front()), d.show(d.l.Back()), strings.Join(ids, " "), strings.Join(vs, " "))
 }
 
